@@ -17,7 +17,9 @@ RULE = ('a case = generated FileStorage history with packs and reopens; the inde
         'step; evaluations = (data file or torn image) x (index snapshot | truncated snapshot | leftover side files) '
         'opens, each compared query-by-query (full battery) with a no-index open of the same bytes, plus read-only '
         'open+use+close with SHA-1 of every file and the directory listing before/after and every writer call '
-        'refused; non-trivial = a stale (saved before >= 1 later commit or before a pack) or cut-short index, or a '
+        'refused; images also include the file as seen while a writer is between vote and finish (complete transaction '
+        'with status c at the end): it must open - read-write and read-only - exactly like the file without that tail; '
+        'non-trivial = a stale (saved before >= 1 later commit or before a pack) or cut-short index, or a '
         'read-only open of an image with an unfinished tail; distinct by (image hash, variant hash)')
 ASSUMPTIONS = ['bit damage inside an index file is outside the guarantee (statement); only truncations and stale '
                'snapshots of genuine index files are generated',
@@ -25,7 +27,7 @@ ASSUMPTIONS = ['bit damage inside an index file is outside the guarantee (statem
                'cannot exist under the prefix crash model',
                'iterator() of a read-only storage over a torn tail may raise CorruptedDataError (documented '
                'behaviour of FileIterator); all other queries must agree']
-BUDGET = {'quick': {'examples': 240, 'workers': 8},
+BUDGET = {'quick': {'examples': 400, 'workers': 8},
           'thorough': {'examples': 4000, 'workers': 16}}
 CAPS = programs.CAPS['fs']
 
@@ -109,6 +111,12 @@ def execute(case):
     for c in case['cuts']:
         if len(final) - c > 4 and npacks == 0:
             images.append(('cut-%d' % c, final[:len(final) - c], 0))
+    # the file as another process sees it while a writer is between vote and finish: a complete
+    # transaction with status 'c' at the end
+    voted = voted_image(fresh(final), case['junk'])
+    if voted is not None:
+        images.append(('voted-tail', voted, npacks))
+    ref_final = None
     for name, data, img_packs in images:
         ref_dir = fresh(data)
         from ZODB.FileStorage import FileStorage
@@ -120,6 +128,16 @@ def execute(case):
         ref = open_and_observe(fresh(data), oids, tids)
         himg = hashlib.sha1(data).digest()
         torn = name != 'final'
+        if name == 'final':
+            ref_final = ref
+        elif name == 'voted-tail':
+            out.label('voted-tail-image')
+            df = diff_obs(ref_final, ref)
+            if df:
+                out.fail((PROPERTY, 'voted-tail', 'visible', df[0][0]),
+                         'a file ending in a voted, unfinished transaction opens as %s -> %s ; without that tail %s' % (
+                             fmt_answer(df[0]), fmt_answer(df[2]), fmt_answer(df[1])))
+                return done(out, nt)
 
         def compare(files, what, nontrivial):
             dd = fresh(data, files)
@@ -210,6 +228,35 @@ def execute(case):
         if out.failures:
             return done(out, nt)
     return done(out, nt)
+
+
+def voted_image(dd, junk):
+    """bytes of the data file while a transaction is voted but not finished"""
+    from ZODB.Connection import TransactionMetaData
+    from ZODB.FileStorage import FileStorage
+    from vlib.records import make_record
+    fs = FileStorage(os.path.join(dd, 'Data.fs'))
+    try:
+        t = TransactionMetaData(user='voter', description='voted, not finished')
+        fs.tpc_begin(t)
+        oids, _ = scan_universe(fs)
+        live = []
+        for o in sorted(oids):
+            try:
+                live.append((o, fs.load(o)[1]))
+            except KeyError:
+                pass
+        if live and junk % 3:
+            oid, serial = live[junk % len(live)]
+            fs.store(oid, serial, make_record(900 + junk, [], junk % 50), '', t)
+        fs.store(fs.new_oid(), b'\0' * 8, make_record(901 + junk, [], junk % 70), '', t)
+        fs.tpc_vote(t)
+        with open(os.path.join(dd, 'Data.fs'), 'rb') as f:
+            data = f.read()
+        fs.tpc_abort(t)
+        return data
+    finally:
+        fs.close()
 
 
 def refuse_writes(ro, out, oids):
